@@ -1,4 +1,4 @@
-(* C20 — executable model of sarama/mocks producers (async_producer.go, sync_producer.go).
+(* C20 — executable model of sarama/mocks producers (async_producer.go, sync_producer.go; the consumer is in ConsumerModel.v).
    No proofs here. Errors and messages are identified by integers chosen by the harness. *)
 From Coq Require Import List ZArith Bool.
 Import ListNotations.
@@ -21,12 +21,17 @@ Inductive report := RepNoExpectation | RepPartitioner | RepChecker | RepLeftOver
 Inductive event :=
 | EvSucc (id p off : Z)        (* on Successes(): message id with Partition p, Offset off *)
 | EvErr (id e : Z)             (* on Errors(): message id with error e *)
-| EvReport (r : report).       (* t.Errorf *)
+| EvReport (r : report)        (* t.Errorf *)
+| EvCheck (id p : Z).          (* the expectation's checker is called with message id whose Partition is p *)
 
 Record cfg := { ret_succ : bool; ret_err : bool }.
 Record st := { exps : list expectation; last : Z }.
 
 Definition init (es : list expectation) : st := {| exps := es; last := 0 |}.
+
+(* msg.Partition is assigned before the checker (if any) runs *)
+Definition checked (k : checker) (m : msg) (p : Z) : list event :=
+  match k with CNone => [] | _ => [EvCheck (m_id m) p] end.
 
 (* one iteration of the async mock's `for msg := range mp.input` loop *)
 Definition step_async (c : cfg) (s : st) (m : msg) : st * list event :=
@@ -37,13 +42,13 @@ Definition step_async (c : cfg) (s : st) (m : msg) : st * list event :=
     | PErr x => ({| exps := es; last := last s |}, [EvReport RepPartitioner; EvErr (m_id m) x])
     | POk p =>
       match e_chk e with
-      | CFail x => ({| exps := es; last := last s |}, [EvReport RepChecker; EvErr (m_id m) x])
-      | _ =>
+      | CFail x => ({| exps := es; last := last s |}, [EvCheck (m_id m) p; EvReport RepChecker; EvErr (m_id m) x])
+      | k =>
         match e_res e with
         | RSucc => ({| exps := es; last := last s + 1 |},
-                    if ret_succ c then [EvSucc (m_id m) p (last s + 1)] else [])
+                    checked k m p ++ if ret_succ c then [EvSucc (m_id m) p (last s + 1)] else [])
         | RFail x => ({| exps := es; last := last s |},
-                      if ret_err c then [EvErr (m_id m) x] else [])
+                      checked k m p ++ if ret_err c then [EvErr (m_id m) x] else [])
         end
       end
     end
@@ -70,18 +75,24 @@ Definition async_history (c : cfg) (es : list expectation) (ms : list msg) : lis
    a_part  Some p when msg.Partition was assigned (the partitioner's choice; assigned before the checker runs)
    a_off   Some o when msg.Offset was assigned
    a_last  lastOffset afterwards *)
-Record applied := { a_err : option Z; a_rep : list report; a_part : option Z; a_off : option Z; a_last : Z }.
+Record applied := { a_err : option Z; a_rep : list report; a_part : option Z; a_off : option Z; a_last : Z;
+                    a_chk : list (Z * Z) }.   (* (message id, Partition) the checker was called with *)
+Definition checked_sync (k : checker) (m : msg) (p : Z) : list (Z * Z) :=
+  match k with CNone => [] | _ => [(m_id m, p)] end.
 
 Definition apply1 (e : expectation) (lo : Z) (m : msg) : applied :=
   match m_pres m with
-  | PErr x => {| a_err := Some x; a_rep := [RepPartitioner]; a_part := None; a_off := None; a_last := lo |}
+  | PErr x => {| a_err := Some x; a_rep := [RepPartitioner]; a_part := None; a_off := None; a_last := lo; a_chk := [] |}
   | POk p =>
     match e_chk e with
-    | CFail x => {| a_err := Some x; a_rep := [RepChecker]; a_part := Some p; a_off := None; a_last := lo |}
-    | _ =>
+    | CFail x => {| a_err := Some x; a_rep := [RepChecker]; a_part := Some p; a_off := None; a_last := lo;
+                    a_chk := [(m_id m, p)] |}
+    | k =>
       match e_res e with
-      | RSucc => {| a_err := None; a_rep := []; a_part := Some p; a_off := Some (lo + 1); a_last := lo + 1 |}
-      | RFail x => {| a_err := Some x; a_rep := []; a_part := Some p; a_off := None; a_last := lo |}
+      | RSucc => {| a_err := None; a_rep := []; a_part := Some p; a_off := Some (lo + 1); a_last := lo + 1;
+                    a_chk := checked_sync k m p |}
+      | RFail x => {| a_err := Some x; a_rep := []; a_part := Some p; a_off := None; a_last := lo;
+                      a_chk := checked_sync k m p |}
       end
     end
   end.
@@ -97,20 +108,23 @@ Definition err_out_of_expectations : Z := -1.
 
 (* result of one call: return value, reporter calls, what happened to each message passed,
    ids of the messages the partitioner was consulted for *)
-Record callres := { r_ret : sret; r_rep : list report; r_touch : list touch; r_asked : list Z }.
+Record callres := { r_ret : sret; r_rep : list report; r_touch : list touch; r_asked : list Z;
+                    r_checked : list (Z * Z) }.   (* checker calls: (message id, Partition seen) *)
 
 Definition step_sync (s : st) (m : msg) : st * callres :=
   match exps s with
-  | [] => (s, {| r_ret := SErr err_out_of_expectations; r_rep := [RepNoExpectation]; r_touch := [untouched]; r_asked := [] |})
+  | [] => (s, {| r_ret := SErr err_out_of_expectations; r_rep := [RepNoExpectation]; r_touch := [untouched]; r_asked := [];
+            r_checked := [] |})
   | e :: es =>
     let a := apply1 e (last s) m in
     ({| exps := es; last := a_last a |},
      {| r_ret := match a_err a with None => SOk 0 (a_last a) | Some x => SErr x end;
-        r_rep := a_rep a; r_touch := [touch_of a]; r_asked := [m_id m] |})
+        r_rep := a_rep a; r_touch := [touch_of a]; r_asked := [m_id m]; r_checked := a_chk a |})
   end.
 
 (* the `for i, expectation := range expectations` loop of SendMessages: stops at the first failure *)
-Record batchres := { b_last : Z; b_err : option Z; b_rep : list report; b_touch : list touch; b_asked : list Z }.
+Record batchres := { b_last : Z; b_err : option Z; b_rep : list report; b_touch : list touch; b_asked : list Z;
+                     b_checked : list (Z * Z) }.
 
 Fixpoint batch_loop (lo : Z) (es : list expectation) (ms : list msg) : batchres :=
   match es, ms with
@@ -118,12 +132,14 @@ Fixpoint batch_loop (lo : Z) (es : list expectation) (ms : list msg) : batchres 
     let a := apply1 e lo m in
     match a_err a with
     | Some x => {| b_last := a_last a; b_err := Some x; b_rep := a_rep a;
-                   b_touch := touch_of a :: map (fun _ => untouched) mr; b_asked := [m_id m] |}
+                   b_touch := touch_of a :: map (fun _ => untouched) mr; b_asked := [m_id m]; b_checked := a_chk a |}
     | None => let r := batch_loop (a_last a) er mr in
               {| b_last := b_last r; b_err := b_err r; b_rep := b_rep r;
-                 b_touch := touch_of a :: b_touch r; b_asked := m_id m :: b_asked r |}
+                 b_touch := touch_of a :: b_touch r; b_asked := m_id m :: b_asked r;
+                 b_checked := a_chk a ++ b_checked r |}
     end
-  | _, _ => {| b_last := lo; b_err := None; b_rep := []; b_touch := map (fun _ => untouched) ms; b_asked := [] |}
+  | _, _ => {| b_last := lo; b_err := None; b_rep := []; b_touch := map (fun _ => untouched) ms; b_asked := [];
+              b_checked := [] |}
   end.
 
 (* SendMessages returns only an error; SOk 0 0 stands for nil *)
@@ -133,10 +149,10 @@ Definition step_batch (s : st) (ms : list msg) : st * callres :=
     let r := batch_loop (last s) (firstn n (exps s)) ms in
     ({| exps := skipn n (exps s); last := b_last r |},
      {| r_ret := match b_err r with None => SOk 0 0 | Some x => SErr x end;
-        r_rep := b_rep r; r_touch := b_touch r; r_asked := b_asked r |})
+        r_rep := b_rep r; r_touch := b_touch r; r_asked := b_asked r; r_checked := b_checked r |})
   else
     (s, {| r_ret := SErr err_out_of_expectations; r_rep := [RepInsufficient];
-           r_touch := map (fun _ => untouched) ms; r_asked := [] |}).
+           r_touch := map (fun _ => untouched) ms; r_asked := []; r_checked := [] |}).
 
 Inductive call := CSend (m : msg) | CBatch (ms : list msg).
 
